@@ -270,3 +270,27 @@ Lemma in_memory_calls bs a :
   snd (step_mem bs a ONew) = RMem
   /\ forall off size wo, snd (step_mem bs a (OAt off size wo)) = RAtFail.
 Proof. split; reflexivity. Qed.
+
+(** clause 1 in the monitor's vocabulary: under a protocol-keeping caller,
+    every earlier handle on the region handed out is dead — released by its
+    owner and without unfinished reader / writer *)
+Lemma live_block_in_live_offs a h b :
+  nth_error (a_blks a) h = Some b -> 0 < b_use b -> In (b_off b) (live_offs a).
+Proof.
+  intros Eb Hu. unfold live_offs. apply in_map. apply filter_In. split.
+  - eapply nth_error_In; eauto.
+  - apply Z.ltb_lt. exact Hu.
+Qed.
+
+Lemma handout_handles_dead c ops o a' x h b : wf_cfg c -> proto_ok c (init_a c) ops = true ->
+  step c (reach c ops) o = (a', RHanded x) ->
+  nth_error (a_blks (reach c ops)) h = Some b -> b_off b = x ->
+  b_rel b = true /\ count_open h (a_pins (reach c ops)) = O.
+Proof.
+  intros Hc Hp Hs Eb Ho.
+  destruct (handout_reach c ops o a' x Hc Hs) as [_ Hnl].
+  destruct (use_exact_reach c ops Hc Hp) as [_ Hu]. specialize (Hu h b Eb).
+  assert (Hle : ~ 0 < b_use b).
+  { intros H. apply Hnl. rewrite <- Ho. eapply live_block_in_live_offs; eauto. }
+  destruct (b_rel b); split; try reflexivity; lia.
+Qed.
